@@ -3,9 +3,11 @@ package main
 // Lvalue paths: reading and functional update of nested values.
 
 import (
+	"fmt"
 	"go/ast"
 	"go/token"
 	"go/types"
+	"strings"
 )
 
 func (fv *FV) rootTerm(st *State, p *Path) (Term, []PathStep) {
@@ -66,6 +68,17 @@ func (fv *FV) stepRead(st *State, cur Term, s PathStep, quiet bool) Term {
 		}
 		fv.abort(s.Pos, "dereference of sort %s", cur.Sort.Name)
 	case StField:
+		if cur.Sort.Kind == KOpaque && strings.HasPrefix(cur.Sort.Name, "U_Ref_") && cur.Sort.GoType != nil {
+			// a struct value reached through a recursive occurrence of its own type (map[string]ChartSegment inside
+			// ChartSegment): read-only unfolding by an uninterpreted function into the struct sort
+			if _, isPtr := types.Unalias(cur.Sort.GoType).Underlying().(*types.Pointer); !isPtr {
+				if tgt := fv.ss.Of(cur.Sort.GoType); tgt != nil && tgt.Kind == KStruct {
+					fn := "unref_" + cur.Sort.Name
+					fv.ss.ensureDecl(fn, fmt.Sprintf("(declare-fun %s (%s) %s)", fn, cur.Sort.Name, tgt.Name))
+					cur = Term{sx(fn, cur.S), tgt}
+				}
+			}
+		}
 		if cur.Sort.Kind == KOpaque {
 			fv.abort(s.Pos, "field %s of opaque sort %s", s.Field, cur.Sort.Name)
 		}
